@@ -42,16 +42,17 @@ def digest_descriptor(it_repo: Repo, events: List[Any], curve: bytes, msg_name: 
             if 'G2MessageAugmentation' in name:
                 return 'identity'
             return f'no-hasher:{name}'
-        if isinstance(h, FuncRef) and h.fi is not None:
-            return EXT['digest'].get(h.fi.qualname, h.fi.qualname).split(' ')[0]
-        if isinstance(h, FuncRef) and h.lam is not None:
-            it = Interp(it_repo, KeyHooks(it_repo), max_depth=2)
-            r = it.run_paths(lambda i: i.call_function(h, [Sym('x', 'bytes')], {}, None))
+        if isinstance(h, FuncRef) and h.fi is not None and h.fi.qualname in EXT['digest']:
+            return EXT['digest'][h.fi.qualname].split(' ')[0]
+        if isinstance(h, FuncRef):
+            # a lambda or a named repository function: what it computes decides, not how it is spelled
+            it = Interp(it_repo, KeyHooks(it_repo), max_depth=3)
+            r = it.run_paths(lambda i: i.call_function(h, [Sym('x', 'bytes')], {}, None, force_inline=True))
             v = r[0].value
             if isinstance(v, App) and v.op == 'mcall:digest' and isinstance(v.args[0], App) and v.args[0].op == 'blake2b' \
                     and vrepr(v.args[0].args[0]) == '$x' and v.args[0].args[-1] == 32:
                 return 'blake2b-256'
-            return 'lambda:' + vrepr(v)
+            return (h.fi.qualname if h.fi is not None else 'lambda') + ':' + vrepr(v)
     return 'message-not-used'
 
 
